@@ -28,7 +28,7 @@ pub trait Engine: Sync {
   }
   /// Turn a failing case into its most explicit form (e.g. pin the one crash
   /// image of a sweep that fails).
-  fn pin(&self, case: &Self::Case, _wroot: &Path) -> Self::Case {
+  fn pin(&self, case: &Self::Case, _target: &Violation, _wroot: &Path) -> Self::Case {
     case.clone()
   }
   fn sample(&self, case: &Self::Case) -> Value {
@@ -300,9 +300,9 @@ pub fn drive<E: Engine>(engine: &E, args: &Args) -> i32 {
   let mut reported = Vec::new();
   for (i, v, case) in new_kinds.iter().take(3) {
     let case: E::Case = serde_json::from_value(case.clone()).unwrap();
-    let case = engine.pin(&case, &worker_root(0));
+    let case = engine.pin(&case, v, &worker_root(0));
     let (min_case, min_v, tried) = minimise(engine, property, &case, v, &worker_root(0));
-    let min_case = engine.pin(&min_case, &worker_root(0));
+    let min_case = engine.pin(&min_case, &min_v, &worker_root(0));
     // verify: the minimised case must fail the same way when executed again
     let mut st = Stats::default();
     let (again, _) = engine.execute(&min_case, &worker_root(0), &mut st);
@@ -429,6 +429,7 @@ pub fn main() -> i32 {
       drive(&crate::engines::CrashEngine { c02 }, &args)
     }
     "fault" => drive(&crate::engines::FaultEngine, &args),
+    "corrupt" => drive(&crate::engines::CorruptEngine, &args),
     other => {
       eprintln!("harness error: unknown mode `{}`", other);
       2
